@@ -242,13 +242,17 @@ pub fn c14(rng: &mut Rng, _tier: &str, idx: usize) -> Case {
     let ids: Vec<u32> = par.keys().copied().collect();
     let up: BTreeMap<u32, BTreeMap<u32, (usize, u64)>> = ids.iter().map(|i| (*i, up_counts(&par, *i))).collect();
     c.op("dump 0".to_string());
-    let ncalls = rng.range(2, 4);
+    let ncalls = if idx % 3 == 0 { rng.range(3, 4) } else { rng.range(2, 4) };
     let mut nontrivial = false;
     for call in 0..ncalls {
         let dst = 1 + call as u32;
-        if call >= 1 && rng.chance(1, 3) {
+        // every third case: the roots are cleared (or replaced) before the second call and set back
+        // to the defaults before the third one, on the same ontology object
+        let scripted = idx % 3 == 0 && (call == 1 || call == 2);
+        if call >= 1 && (rng.chance(1, 3) || scripted) {
             // the modifier roots change between two calls on the same ontology object
-            let v = match rng.below(4) {
+            let pick = if scripted { if call == 1 { 1 + rng.below(2) } else { 0 } } else { rng.below(4) };
+            let v = match pick {
                 0 => "def".to_string(),
                 1 => "-".to_string(),
                 _ => crate::proto::ids(ids.iter().copied().filter(|x| *x != 1 && *x != 118 && rng.chance(1, 4))),
